@@ -10,8 +10,16 @@ VARIABLE i
 \* the token starts of the query: from the KvLexer contract when it specifies the text, else as the engine lexed it
 TokStarts(c) == LET want == Tokenize(c.q) IN
                 IF Specified(want) THEN {want[x].pos : x \in 1..Len(want)} ELSE {c.tokpos[x] : x \in 1..Len(c.tokpos)}
+\* the (1-based) index of the quote that opens a literal the text ends in, 0 if every literal is closed (quotes pair left to right,
+\* KvLexer!QuoteEnd; texts with a backslash are left alone).  Whatever the lexer makes of such a tail, no token starts INSIDE it.
+RECURSIVE OpenQuoteFrom(_, _)
+OpenQuoteFrom(t, x) == IF x > Len(t) THEN 0
+                       ELSE IF t[x] \in Quotes THEN (LET j == QuoteEnd(t, x + 1, t[x]) IN IF j = 0 THEN x ELSE OpenQuoteFrom(t, j + 1))
+                       ELSE OpenQuoteFrom(t, x + 1)
+OpenQuote(t) == IF \E x \in 1..Len(t) : t[x] = 92 THEN 0 ELSE OpenQuoteFrom(t, 1)
 Verdict(c) ==
   IF c.panic # "" THEN "rendering-panics"
+  ELSE IF c.ekind = "syntax" /\ OpenQuote(c.q) > 0 /\ c.pos >= OpenQuote(c.q) /\ c.pos < Len(c.q) THEN "position-inside-unterminated-literal"
   ELSE IF c.q = <<>> /\ c.haslate /\ c.late # c.out THEN "error-text-changed-by-a-later-statement"
   ELSE IF c.ekind # "direct" /\ ~PosValid(c.q, TokStarts(c), c.pos, c.ekind) THEN
        (IF c.pos >= Len(c.q) \/ c.pos < -1 THEN "position-outside-query" ELSE "position-not-a-token-start")
